@@ -154,5 +154,34 @@ pub fn check(cx: &Cx, rep: &mut Report) {
             }
         }
     }
+    // the final state handed out is the final state *under the restart strategy the actor was built with*: an owning
+    // spawn of a recreate-from-default / non-restartable actor keeps that strategy (the evidence of C07.R3)
+    let mut sub = Report::default();
+    super::c07::check(cx, &mut sub);
+    for v in sub.violations.into_iter().filter(|v| v.rule == "R3" && (v.sig.starts_with("recreate_kept") || v.sig.starts_with("restart_only_changed") || v.sig.starts_with("non_restartable_restarted") || v.sig.starts_with("state;"))) {
+        let owning = fx.values().any(|af| af.decl.map(|d| d.entry.owning()).unwrap_or(false) && (v.msg.contains(&format!("actor tag {} ", af.tag)) || v.msg.contains(&format!("actor tag {}:", af.tag))));
+        if owning {
+            rep.premise("C17.R2.strategy_kept_by_owning_spawn");
+            rep.fail(P, "R2", format!("c07:{}", v.sig), v.msg, v.at);
+        }
+    }
+    if fx.values().any(|af| af.decl.map(|d| d.entry.owning() && d.entry.builder() && d.strategy != crate::prog::Strategy::RestartOnly).unwrap_or(false) && af.incs.len() > 1) {
+        rep.premise("C17.R2.strategy_kept_by_owning_spawn");
+    }
+    // "Otherwise an OwningAddr behaves as a strong handle" - and a join future is *not* one: an actor whose last
+    // strong handle was dropped terminates (and its joins resolve) although join futures are still pending
+    // (the evidence of C05.R2, for actors spawned through an owning entry point that had a join requested)
+    let mut sub = Report::default();
+    super::c05::check(cx, &mut sub);
+    for v in sub.violations.into_iter().filter(|v| v.rule == "R2" && (v.sig == "alive_after_last_drop" || v.sig == "idle_alive_without_strong_handles")) {
+        let owning_with_join = fx.values().any(|af| {
+            af.decl.map(|d| d.entry.owning()).unwrap_or(false)
+                && v.msg.contains(&format!("actor tag {} ", af.tag)) | v.msg.contains(&format!("actor tag {}:", af.tag))
+                && ix.ops.iter().any(|o| o.tag == af.tag && matches!(o.op, OpK::Join | OpK::JoinPark | OpK::ConsumeSync) && o.executed())
+        });
+        if owning_with_join {
+            rep.fail(P, "R4", format!("c05:{}", v.sig), v.msg, v.at);
+        }
+    }
     rep.nontrivial = nontrivial;
 }
